@@ -520,4 +520,4 @@ def checks(h):
         "init": irgen.module_recipes(depth=2, max_ops=3, max_blocks=3),
         "steps": st.lists(step, min_size=3, max_size=nsteps),
     })
-    h.hyp("histories", strat, lambda r: run_history(h, r, "history"), h.scale(60, 450), 1)
+    h.hyp("histories", strat, lambda r: run_history(h, r, "history"), h.scale(60, 900), 1)
